@@ -17,6 +17,18 @@ class Refused(Exception):
     """The constructor refused this configuration with ValueError/TypeError (counted, not a failure)."""
 
 
+def is_refusal(exc):
+    """A deliberate refusal = ValueError/TypeError raised by an explicit `raise` statement inside amaranth_soc
+    (as opposed to an internal error surfacing from a library call or an accidental TypeError)."""
+    if not isinstance(exc, (ValueError, TypeError)):
+        return False
+    tb = traceback.extract_tb(exc.__traceback__)
+    if not tb:
+        return False
+    last = tb[-1]
+    return "amaranth_soc" in last.filename and (last.line or "").lstrip().startswith("raise ")
+
+
 class ElaborationFailed(Exception):
     """The real elaborate() of an accepted configuration raised."""
     def __init__(self, msg, tb=""):
@@ -40,6 +52,8 @@ class Ctx:
         try:
             frag = Fragment.get(component, None)
         except Exception as e:
+            if is_refusal(e):
+                raise Refused("at elaboration: " + str(e))
             # the real elaborate() raised: a fact about the code, not about the harness
             raise ElaborationFailed(f"{type(e).__name__}: {e}", traceback.format_exc())
         nl = Netlist(frag, probes=probes, ports=ports if ports is not None else
